@@ -48,6 +48,12 @@ pub struct Monitors {
     pub largest_peer_payload: usize,
     /// the sequence number first transmitted as an oversized probe and not yet acknowledged
     pub probe_seq: Option<u16>,
+    /// the library has (by its rules) discarded this expired probe and will re-cut its bytes
+    pub popped_probe: Option<u16>,
+    /// probe_seq as it was when the current step began
+    pub probe_seq_before: Option<u16>,
+    /// the peer acknowledged an expired probe in its ORIGINAL size after the library had discarded it
+    pub desync: bool,
     /// loss episode: Some(recovery point) from the first retransmission until the cumulative ACK passes it
     pub episode: Option<u16>,
     pub loss_seen: bool,
@@ -95,6 +101,9 @@ impl Monitors {
             largest_payload_acked: 0,
             largest_peer_payload: 0,
             probe_seq: None,
+            popped_probe: None,
+            probe_seq_before: None,
+            desync: false,
             episode: None,
             loss_seen: false,
             bytes_acked: 0,
@@ -146,6 +155,8 @@ impl Monitors {
         out.push(self.largest_payload_acked as u64);
         out.push(self.largest_peer_payload as u64);
         out.push(self.probe_seq.map(|x| x as u64).unwrap_or(u64::MAX));
+        out.push(self.popped_probe.map(|x| x as u64).unwrap_or(u64::MAX));
+        out.push(self.desync as u64);
         out.push(self.episode.map(|x| x as u64).unwrap_or(u64::MAX));
         out.push(self.loss_seen as u64);
         out.push(self.bytes_acked);
@@ -179,6 +190,7 @@ impl Monitors {
     pub fn check(&mut self, w: &World, act: Option<&Act>) -> Vec<Finding> {
         let mut v = vec![];
         let rec = w.trace.last().unwrap().clone();
+        self.probe_seq_before = self.probe_seq;
         self.c10(&rec, w, &mut v);
         self.peer_side_updates(&rec, w);
         self.tx_wire(&rec, w, act, &mut v);
@@ -283,6 +295,11 @@ impl Monitors {
             if let Some(ps) = self.probe_seq {
                 if self.tx.get(&ps).map(|t| t.acked).unwrap_or(false) {
                     self.probe_seq = None;
+                    if self.popped_probe == Some(ps) {
+                        // the peer holds the probe in its original size, the sender has already re-cut it
+                        self.desync = true;
+                    }
+                    self.popped_probe = None;
                 }
             }
             if let Some(fs) = self.fin_seq {
@@ -355,17 +372,24 @@ impl Monitors {
                 }
                 let is_newest = self.tx_order.last() == Some(&seq);
                 if len != t.len {
-                    let split_ok = is_newest && !t.acked && len < t.len && t.len > self.proven();
-                    if !split_ok {
+                    // a never-acknowledged size probe (the newest segment) may be re-cut from the same offset
+                    let recut_ok = is_newest && !t.acked && self.probe_seq == Some(seq);
+                    if !recut_ok {
                         v.push(f(
                             "C06",
                             "rtx-discipline",
-                            "rtx/length-changed",
-                            format!("sequence number {} first carried {} bytes, now {} bytes (only a never-acknowledged size probe may be split)", seq, t.len, len),
+                            if self.desync { "probe/acked-after-expiry-desynchronises-stream" } else { "rtx/length-changed" },
+                            format!("sequence number {} first carried {} bytes, now {} bytes (only a never-acknowledged size probe may be re-cut)", seq, t.len, len),
                         ));
                     } else {
                         let tm = self.tx.get_mut(&seq).unwrap();
                         tm.len = len;
+                        if self.popped_probe == Some(seq) {
+                            self.popped_probe = None;
+                        }
+                        if len <= self.proven_strict() {
+                            self.probe_seq = None;
+                        }
                     }
                 }
                 let ok = e.payload.iter().enumerate().all(|(i, b)| *b == coded(t.off + i as u64, SALT_EP));
@@ -373,7 +397,7 @@ impl Monitors {
                     v.push(f(
                         "C06",
                         "rtx-discipline",
-                        "rtx/bytes-changed",
+                        if self.desync { "probe/acked-after-expiry-desynchronises-stream" } else { "rtx/bytes-changed" },
                         format!("retransmission of sequence number {} does not carry the bytes at stream offset {}", seq, t.off),
                     ));
                 }
@@ -399,22 +423,24 @@ impl Monitors {
                     None => (0, seq),
                 };
                 if seq != expected_seq {
-                    v.push(f("C01", "wire-payload", "payload/sequence-gap", format!("first transmission of sequence number {} but {} was expected next", seq, expected_seq)));
+                    v.push(f("C01", "wire-payload", if self.desync { "probe/acked-after-expiry-desynchronises-stream" } else { "payload/sequence-gap" }, format!("first transmission of sequence number {} but {} was expected next", seq, expected_seq)));
                 }
                 let ok = e.payload.iter().enumerate().all(|(i, b)| *b == coded(off + i as u64, SALT_EP));
                 if !ok || off + len as u64 > w.written {
                     v.push(f(
                         "C01",
                         "wire-payload",
-                        "payload/wrong-bytes-on-wire",
+                        if self.desync { "probe/acked-after-expiry-desynchronises-stream" } else { "payload/wrong-bytes-on-wire" },
                         format!("sequence number {} should carry stream bytes [{}, {}) (the application has written {}), payload differs", seq, off, off + len as u64, w.written),
                     ));
                 }
                 // C14: an ordinary segment never exceeds the largest payload already proven deliverable
                 let proven = self.proven();
+                if len > self.proven_strict() {
+                    self.probe_seq = Some(seq);
+                }
                 let oversized = len > proven;
                 if oversized {
-                    self.probe_seq = Some(seq);
                     // at most one unacknowledged oversized segment, and it is the newest
                     let others = self.tx.values().filter(|t| !t.acked && t.len > proven).count();
                     if others > 0 {
@@ -486,6 +512,11 @@ impl Monitors {
     pub fn proven(&self) -> usize {
         let ceiling = self.cfg.link_mtu - if self.cfg.ipv6 { 48 } else { 28 } - 20;
         self.largest_payload_acked.max(self.largest_peer_payload.min(ceiling)).max(self.protocol_min_payload())
+    }
+
+    /// proof by the peer's acknowledgements only: used for *exemptions* (what may count as a size probe)
+    pub fn proven_strict(&self) -> usize {
+        self.largest_payload_acked.max(self.protocol_min_payload())
     }
 
     /// smallest payload the protocol may use without proof: min(link ceiling, default minimum MTU payload)
@@ -754,6 +785,9 @@ impl Monitors {
     // C06: retransmission timing discipline
     // ------------------------------------------------------------------------------------------
     fn rtx(&mut self, rec: &StepRecord, w: &World, act: Option<&Act>, v: &mut Vec<Finding>) {
+        if self.desync {
+            return; // sender and monitor no longer agree on what each sequence number carries (known finding F18)
+        }
         let (Some(ob), oa) = (&rec.obs_before, &rec.obs_after) else { return };
         let clamp = |us: u64| us.clamp(200_000, 60_000_000);
         // unacknowledged data (or FIN) on the wire before this step
@@ -860,11 +894,22 @@ impl Monitors {
             }
             // a timer-driven step at the retransmission deadline
             let due_now = ob.timers[0].map(|d| d.as_micros() as u64 == rec.clock_advanced_us).unwrap_or(false) && matches!(act, Some(Act::Tick) | Some(Act::Wait(_))) && rec.clock_advanced_us > 0;
+            if due_now && rec.peer_sent.is_empty() && w.done.is_none() {
+                if let Some(ps) = self.probe_seq_before {
+                    if let Some(t) = self.tx.get(&ps) {
+                        // the library discards a probe whose retransmissions are used up when the timer fires
+                        let same_again = rec.emitted.iter().any(|e| e.hdr.ptype == 0 && e.hdr.seq == ps);
+                        if !t.acked && t.count.saturating_sub(1) >= w.cfg.probe_retx && !same_again && t.last_t < rec.t_us {
+                            self.popped_probe = Some(ps);
+                        }
+                    }
+                }
+            }
             if due_now && rec.peer_sent.is_empty() && w.done.is_none() && rec.rejected.is_empty() {
                 if let Some(fu) = first_unacked {
                     let seg = &self.tx[&fu];
                     let _ = seg;
-                    let is_probe = self.probe_seq == Some(fu);
+                    let is_probe = self.probe_seq_before == Some(fu);
                     let resent = rec.emitted.iter().any(|e| e.hdr.ptype == 0 && e.hdr.seq == fu);
                     if !resent && !is_probe {
                         let behind_probe = self.tx.values().any(|t| !t.acked && t.len > self.proven());
@@ -1043,6 +1088,9 @@ impl Monitors {
     // C18 Nagle, C19 send buffer / back-pressure
     // ------------------------------------------------------------------------------------------
     fn nagle_and_buffers(&mut self, rec: &StepRecord, w: &World, act: Option<&Act>, v: &mut Vec<Finding>) {
+        if self.desync {
+            return;
+        }
         let Some(oa) = &rec.obs_after else { return };
         let Some(ob) = &rec.obs_before else { return };
         let limit = w.cfg.tx_init.max(w.cfg.tx_max) as u64;
